@@ -25,12 +25,14 @@ def main():
     out = os.path.join(wt, "OUT", k)
     md = open(os.path.join(out, "demo.md")).read()
     cp = re.search(r"^\s*cp (OUT/%s/\S+) (\S+/tests/\S+\.rs)\s*$" % k, md, re.M)
-    ct = re.search(r"^\s*(cargo test [^\n#;&]*--test \S+)", md, re.M)
+    cts = re.findall(r"^\s*(cargo test [^\n#;&]*--test [^\n#;&]*)", md, re.M)
+    feat = [c for c in cts if "--features" in c]
+    ct = (feat or cts or [None])[0]
     if not cp or not ct:
         print("cannot find the cp / cargo test lines in demo.md")
         return 2
     src, dst = cp.group(1), cp.group(2)
-    cmd = ct.group(1).strip()
+    cmd = ct.strip()
     if "--offline" not in cmd:
         cmd = cmd.replace("cargo test", "cargo test --offline")
     res = {"demo_cmd": cmd, "demo_file": dst}
